@@ -533,7 +533,7 @@ func main() {
 	// another line and itself again (A B A, A B A B), B being fresh or A under another PID.  Every line, repeated
 	// or not, is judged on its own by the property's oracle.
 	var queue []caseDesc
-	gi := 0
+	gi, fresh, ordered := 0, 0, 0
 	var cur caseDesc
 	onHang = func(tok, msg string, mode runMode) {
 		// the main goroutine is stuck inside the call: nothing else touches the summary any more
@@ -585,6 +585,15 @@ func main() {
 					queue = []caseDesc{b, a}
 				}
 			}
+			// ORDER as an input (gen.go: genOrdered): the case right after a genuine line of each kind in rotation
+			if share := orderedShare[*prop]; share > 0 && fresh%share == 1 {
+				prevs, follow, after := genOrdered(r, ordered, desc)
+				ordered++
+				queue = append(append(append([]caseDesc{}, prevs[1:]...), follow), queue...)
+				desc = prevs[0]
+				sum.Dist("ordered_after_" + after)
+			}
+			fresh++
 		}
 		g, tok, mode := desc.Gen, desc.Tok, desc.Mode
 		cur = desc
@@ -664,6 +673,11 @@ func hangKey(prop string) string {
 	return "fields:hang"
 }
 
+// orderedShare: every share-th freshly generated case of a property's mix is processed right after a genuine line of
+// another kind (C17: client-chosen text; C05 C11 C19: no forward / nothing emitted / nothing counted that the line itself
+// does not warrant, whatever came before).
+var orderedShare = map[string]int{"C17": 3, "C05": 6, "C11": 6, "C19": 6}
+
 func hashStr(s string) uint64 {
 	var h uint64 = 1469598103934665603
 	for i := 0; i < len(s); i++ {
@@ -675,7 +689,7 @@ func hashStr(s string) uint64 {
 func ruleText(prop string) string {
 	return "messages rendered from sshd's format strings with generated field values (account names incl. unicode and words of the message, IPv4/IPv6/zone ids/host names, ports, all key types and lower-case/underscore/'ssh'-prefixed names of the class [A-Za-z0-9_-], SHA256/MD5 fingerprints incl. '=' padding, key IDs with spaces/parentheses/'serial'/'(serial N)'/' from A port N'/partial ' ssh2: ' fragments (domain no_ssh_frag of C06_accepted_cert), forged fragments in the account of accepted lines, serials to 2^64-1, paths with spaces), " +
 		"hostile names (C17; incl. every prefix/suffix of sshd's own phrases, empty names, escape-looking text such as #012 \\n %0a &#10;, and letters whose upper/lower/title/folded form has another UTF-8 length - enumerated from the Unicode tables -, NFC/NFD pairs, ligatures, final sigma, Turkish i's, combining marks), runs of blanks and tabs inside key ids, paths, shells, reasons and account names, arbitrary bytes and systematic mutations, sshd's generic '<Accepted|Failed|Postponed|Partial> <method> for ...' shape with hostile method tokens (invalid UTF-8, NUL, empty, very long) and every recognised message with one token replaced by hostile bytes (C11), PID tokens (valid, signed, overflowing, empty, non-numeric), write failure, a writer that recovers after 1-2 rejected writes and cancelled hand-off modes (context cancelled before the line, or while the hand-off is blocked; C05, C19), framed delivery through SyslogIngester.Process (C07, C17, C11, a third of C06); " +
-		"all lines of a run go through ONE long-lived processor (NewSshdProcessor once, ProcessSshdLogEntry per line), lines are repeated (2-4 times in a row, A B A); one private counter registry for the run; the " + prop + " oracle is evaluated from the generated fields; non-trivial = the case makes the implementation write an event; distinct by (token, line, mode)"
+		"all lines of a run go through ONE long-lived processor (NewSshdProcessor once, ProcessSshdLogEntry per line), lines are repeated (2-4 times in a row, A B A) and ORDER is an input (C17 C05 C11 C19: a case right after a genuine line of each recognised kind in rotation, with or without an unrecognised line in between; the follower every other round a failure line whose client-chosen name embeds a message of the kind just processed, cut at 100 bytes); one private counter registry for the run; the " + prop + " oracle is evaluated from the generated fields; non-trivial = the case makes the implementation write an event; distinct by (token, line, mode)"
 }
 
 // genCase: the i-th generated case of a property's mix.  Framed delivery ("<pid> <pad><message>\n" through the syslog
